@@ -114,6 +114,7 @@ class Sched(object):
         self.threads = []
         self.lock_uids = {}       # site name -> distinct lock objects acquired under that name
         self.lock_created = 0     # locks created by scheduled threads during the run
+        self.unknown_ops = 0      # operations the model does not know (busy try-locks)
 
     def tid(self):
         return self.tids.get(threading.get_ident())
@@ -180,7 +181,16 @@ class Sched(object):
             self.choices.append(k)
             self.runnables.append(list(runnable))
             self.trace.append((tid, ev[0], ev[1]))
-            if ev[0] == "acq":
+            if ev[0] == "try":
+                # try-lock / timed acquire: the outcome is fixed now (only the granted thread runs next)
+                got = not ev[2].real.locked()
+                self.trace[-1] = (tid, "try:got" if got else "try:busy", ev[1])
+                if got:
+                    self.owner[ev[1]] = tid
+                    self.lock_uids.setdefault(ev[1], set()).add(ev[2].uid)
+                else:
+                    self.unknown_ops += 1
+            elif ev[0] == "acq":
                 self.owner[ev[1]] = tid
                 self.lock_uids.setdefault(ev[1], set()).add(ev[2].uid)
             elif ev[0] == "rel":
@@ -284,7 +294,17 @@ class Bench(object):
                 break
         return ids, err, len(p._buf)
 
-    def run(self, scenario, chooser, line=False):
+    def probe_further_send(self):
+        """one more send through the idle stack (unscheduled), then what the peer can read now: tells a stanza that
+        is LOST from one that is only LATE (stranded until a later, unrelated send flushes it)"""
+        try:
+            self.layers["coder"].send(self.node(90, 0))
+        except Exception as e:
+            return ["probe raised %s" % e.__class__.__name__]
+        ids, err, leftover = self.peer_read()
+        return ids + (["error:%s" % err] if err else [])
+
+    def run(self, scenario, chooser, line=False, helpers=False):
         """scenario: list per thread of entry nodes (4 coder, 5 logger, 1 segments = unprotected control).
         line: every source line of YowLayer.toLower is a scheduling point as well (harness/c11hs.LineMode)."""
         self.writes = []
@@ -317,7 +337,7 @@ class Bench(object):
         self.h.sched = s
         try:
             if line:
-                with c11hs.LineMode(self.h):
+                with c11hs.LineMode(self.h, helpers):
                     s.run(fns)
             else:
                 s.run(fns)
@@ -344,12 +364,16 @@ def oracle(scenario, s, ids, err, leftover):
     if leftover:
         probs.append("%d bytes on the wire are not a whole frame" % leftover)
     if not probs and sorted(ids) != expected_ids(scenario):
-        probs.append("stanzas transmitted %r != stanzas sent %r" % (sorted(ids), expected_ids(scenario)))
+        missing = [i for i in expected_ids(scenario) if i not in ids]
+        probs.append("at quiescence (every thread finished, stack idle, no further send) stanzas transmitted %r != "
+                     "stanzas sent %r%s" % (sorted(ids), expected_ids(scenario),
+                                            "; every send returned normally, not on the wire: %r" % missing
+                                            if missing else ""))
     return probs
 
 
 # ---------------------------------------------------------------- model side
-EV = {"acq": 1, "rel": 2, "put": 3, "get": 4, "write": 5}
+EV = {"acq": 1, "rel": 2, "put": 3, "get": 4, "write": 5, "try:got": 1, "try:busy": 9}
 
 
 def term_desc(t):
@@ -365,6 +389,7 @@ def term_desc(t):
 def model_check(model, scenario, s, writes, ids):
     opss = [[[e, tid * 100 + k] for k, e in enumerate(ops)] for tid, ops in enumerate(scenario)]
     vis = [(t, k, o) for (t, k, o) in s.trace if k in EV]      # mklock / line are scheduling points only
+    # (a try-lock that got the lock replays as an acquire; a busy one is an operation the model does not have)
     sched = [t for (t, _, _) in vis]
     r = model.call("run_c11", [opss, sched])
     if isinstance(r, tuple):
@@ -378,7 +403,7 @@ def model_check(model, scenario, s, writes, ids):
     if [list(e) for e in evs] != real:
         for i, (a, b) in enumerate(zip(evs, real)):
             if list(a) != b:
-                diffs.append("event %d of thread %d: impl=%s model=%s (1 acq 2 rel 3 put 4 get 5 write 0 not enabled)"
+                diffs.append("event %d of thread %d: impl=%s model=%s (1 acq 2 rel 3 put 4 get 5 write 9 busy try-lock = unknown to the model; 0 not enabled)"
                              % (i, sched[i], b, list(a)))
                 break
     mw = [term_desc(t) for t in wire]
@@ -484,7 +509,7 @@ def run(ctx):
 
     stats = {"schedules": 0, "events": 0, "distinct": set(), "control_runs": 0, "control_detected": 0,
              "exhaustive_scenarios": [], "max_runnable": 0, "first_send_runs": 0, "line_mode_runs": 0,
-             "locks_created_while_sending": 0}
+             "locks_created_while_sending": 0, "unknown_ops": 0}
     n_viol = [0]          # oracle violations (failing input found)
     n_corr = [0, None]    # trace mismatches, schedule count at the first one
 
@@ -497,11 +522,12 @@ def run(ctx):
         # ... but do not spend the whole search budget in the depth-first tail of one scenario
         return n_corr[0] > 0 and n_viol[0] == 0 and n_here >= 60
 
-    def one(scenario, chooser, control=False, mode="random", fresh=False, line=False):
+    def one(scenario, chooser, control=False, mode="random", fresh=False, line=False, helpers=False):
         if fresh and state["bench"] is not None:
             state["bench"].dirty = True          # FIRST stanzas through a freshly built stack: no warm-up send
         b = bench()
-        s, ids, err, leftover = b.run(scenario, chooser, line=line)
+        s, ids, err, leftover = b.run(scenario, chooser, line=line, helpers=helpers)
+        stats["unknown_ops"] += s.unknown_ops
         if fresh:
             b.dirty = True
             stats["first_send_runs"] += 1
@@ -522,6 +548,7 @@ def run(ctx):
                 any(s.trace[i][0] != s.trace[i + 1][0] for i in range(len(s.trace) - 1)):
             stats["distinct"].add(key)
         case = {"scenario": scenario, "choices": s.choices, "fresh_stack": bool(fresh), "line_mode": bool(line),
+                "line_helpers": bool(helpers), "operations_unknown_to_the_model": s.unknown_ops, "mode": mode,
                 "distinct_lock_objects_per_layer": dict((n, len(u)) for n, u in s.lock_uids.items() if len(u) > 1),
                 "schedule": [t for t, _, _ in s.trace],
                 "trace": ["%d:%s%s" % (t, k, "(%s)" % o if o else "") for t, k, o in s.trace][:200],
@@ -538,6 +565,14 @@ def run(ctx):
             return s
         if probs:
             n_viol[0] += 1
+            if any("not on the wire" in p for p in probs) and not s.stuck:
+                after = b.probe_further_send()
+                missing = [i for i in expected_ids(scenario) if i not in ids]
+                late = [i for i in missing if i in after]
+                case["after_one_further_send_the_peer_also_read"] = after
+                case["classification"] = ("late: %r reached the wire only behind a later unrelated send" % late
+                                          if late else "lost: still not on the wire after a further send")
+                probs = probs + [case["classification"]]
             ctx.violation("oracle:stream_corrupted", dict(case, problems=probs, model_diffs=diffs[:5]))
         elif diffs:
             n_corr[0] += 1
@@ -545,10 +580,38 @@ def run(ctx):
             if n_corr[0] <= 1:
                 # reported at the end, and only when the search finds no schedule on which the oracle fails
                 state["first_mismatch"] = dict(case, diffs=diffs[:5])
+        if s.unknown_ops and not control and not state.get("escalating") and len(scenario) == 2 and \
+                json.dumps(scenario) not in state.setdefault("escalated", set()):
+            state["escalated"].add(json.dumps(scenario))
+            state["escalating"] = True
+            try:
+                escalate(scenario)
+            finally:
+                state["escalating"] = False
         if stats["schedules"] % 499 == 1:
             ctx.add_sample({"scenario": scenario, "schedule": case["schedule"][:80], "trace_head": case["trace"][:16],
                             "wire_writers": [w[0] for w in b.writes], "peer_ids": ids})
         return s
+
+    def escalate(scenario):
+        """a run showed an operation the model does not know (busy try-lock): enumerate this 2-sender scenario again,
+        warm and first-send, with line-level preemption in YowLayer.toLower and the YowLayer helpers it calls,
+        one then two preemptions, until the oracle fails"""
+        v0 = n_viol[0]
+        for bound, cap in ((1, 150), (2, 500 if quick else 3000)):
+            for fresh in (False, True):
+                prefix, n = [], 0
+                while prefix is not None and n < cap and n_viol[0] == v0 and state.get("unmodelled", 0) < 3:
+                    sx = one(scenario, cont_chooser(prefix), mode="escalated-pb%d" % bound, fresh=fresh, line=True,
+                             helpers=True)
+                    n += 1
+                    prefix = next_prefix_pb(sx, bound)
+                stats["exhaustive_scenarios"].append({
+                    "scenario": scenario, "schedules": n, "complete": prefix is None, "preemption_bound": bound,
+                    "first_send_on_fresh_stack": fresh, "line_level_yields_in_toLower": True,
+                    "escalated_after_unknown_operation": True})
+                if n_viol[0] != v0:
+                    return
 
     def exhaustive(scenario, cap, control=False, fresh=False):
         prefix, n = [], 0
@@ -574,7 +637,7 @@ def run(ctx):
     hs = {"schedules": 0, "events": 0, "distinct": set(), "all_raise": 0, "all_ok": 0, "mixed": 0, "straddle": 0,
           "systematic": [], "mismatch": 0, "first_mismatch_at": None, "viol": 0, "max_runnable": 0,
           "kinds": set(), "first_viol_at": None, "replies_hs": 0, "replies_env": 0, "line_runs": 0,
-          "locks_created": 0}
+          "locks_created": 0, "unknown_ops": 0}
     hs_search = 650 if quick else 3000
 
     def hs_stop():
@@ -586,9 +649,10 @@ def run(ctx):
             if (hs["first_mismatch_at"] is not None or hs["first_viol_at"] is not None) else None
         return first is not None and hs["schedules"] - first > hs_search
 
-    def hs_one(variant, senders, chooser, mode, srv=0, line=False):
+    def hs_one(variant, senders, chooser, mode, srv=0, line=False, helpers=False):
         b = c11hs.HsBench(ctx.scratch, "c11hs%d" % hs["schedules"], variant, server_stanzas=srv)
-        s = b.run(senders, chooser, line=line)
+        s = b.run(senders, chooser, line=line, helpers=helpers)
+        hs["unknown_ops"] += s.unknown_ops
         hs["line_runs"] += 1 if line else 0
         hs["locks_created"] += s.lock_created
         hs["schedules"] += 1
@@ -614,6 +678,14 @@ def run(ctx):
             hs["distinct"].add(key)
         case = hs_case(b, variant, senders, s, peer, mode, srv)
         case["line_mode"] = bool(line)
+        case["line_helpers"] = bool(helpers)
+        case["operations_unknown_to_the_model"] = s.unknown_ops
+        if any(p.startswith("lost") for p in probs) and not s.stuck:
+            after = c11hs.hs_probe_further_send(b)
+            late = [i for i in after if i is not None and any((" %s " % i) in p for p in probs if p.startswith("lost"))]
+            case["after_one_further_send_the_peer_read"] = after
+            probs = probs + [("late: %r reached the wire only behind a later unrelated send" % late) if late
+                             else "still not on the wire after a further send"]
         case["distinct_lock_objects_per_layer"] = dict((n, len(u)) for n, u in s.lock_uids.items() if len(u) > 1)
         if probs:
             hs["viol"] += 1
@@ -629,6 +701,27 @@ def run(ctx):
             if hs["first_mismatch_at"] is None:
                 hs["first_mismatch_at"] = hs["schedules"]
                 state["hs_first_mismatch"] = dict(case, diffs=diffs[:5])
+        key2 = json.dumps([variant, senders, srv])
+        if s.unknown_ops and not state.get("hs_escalating") and key2 not in state.setdefault("hs_escalated", set()):
+            state["hs_escalated"].add(key2)
+            state["hs_escalating"] = True
+            try:
+                v0 = hs["viol"]
+                for bound, cap in ((1, 150), (2, 400 if quick else 2500)):
+                    prefix, n = [], 0
+                    while prefix is not None and n < cap and hs["viol"] == v0 and state.get("unmodelled", 0) < 3:
+                        sx = hs_one(variant, senders, c11hs.prefix_chooser(prefix), "escalated-pb%d" % bound, srv,
+                                    line=True, helpers=True)
+                        n += 1
+                        prefix = c11hs.next_prefix_pb(sx.choices, sx.options, sx.preemptible, bound)
+                    hs["systematic"].append({"handshake": variant, "senders": senders, "server_stanzas": srv,
+                                             "preemption_bound": bound, "line_level_yields_in_toLower": True,
+                                             "escalated_after_unknown_operation": True, "schedules": n,
+                                             "complete": prefix is None})
+                    if hs["viol"] != v0:
+                        break
+            finally:
+                state["hs_escalating"] = False
         if hs["schedules"] % 331 == 7:
             ctx.add_sample({"handshake": variant, "senders": senders, "schedule": list(sched)[:90],
                             "trace_head": case["trace"][:24], "outcomes": case["outcomes"], "peer_ids": peer["ids"]})
@@ -768,6 +861,7 @@ def run(ctx):
     ctx.coverage["first_send_on_fresh_stack_runs"] = stats["first_send_runs"] + hs["schedules"]
     ctx.coverage["line_level_runs"] = stats["line_mode_runs"] + hs["line_runs"]
     ctx.coverage["locks_created_by_sender_threads"] = stats["locks_created_while_sending"] + hs["locks_created"]
+    ctx.coverage["operations_unknown_to_the_model"] = stats["unknown_ops"] + hs["unknown_ops"]
     ctx.coverage["lock_factory_bindings"] = ["%s.%s" % b for b in c11hs.install_lock_factory()]
     fb = sorted(set((state["bench"].h.fallback if state["bench"] is not None else [])))
     if fb:
@@ -791,7 +885,8 @@ def replay_hs(ctx, case):
     exe = ctx.build_model("C11")
     model = modelrun.Model(exe) if exe else None
     b = c11hs.HsBench(ctx.scratch, "c11hsreplay", case["handshake"], server_stanzas=case.get("server_stanzas", 0))
-    s = b.run(case["senders"], c11hs.prefix_chooser(case["choices"]), line=case.get("line_mode", False))
+    s = b.run(case["senders"], c11hs.prefix_chooser(case["choices"]), line=case.get("line_mode", False),
+              helpers=case.get("line_helpers", False))
     probs, peer = c11hs.hs_oracle(b, case["senders"], s)
     diffs = c11hs.hs_model_check(model, b, case["senders"], s, peer) if model else []
     if model:
@@ -828,7 +923,8 @@ def replay(ctx, data):
     exe = ctx.build_model("C11")
     model = modelrun.Model(exe) if exe else None
     b = Bench(ctx, 7)
-    s, ids, err, leftover = b.run(case["scenario"], prefix_chooser(case["choices"]), line=case.get("line_mode", False))
+    s, ids, err, leftover = b.run(case["scenario"], prefix_chooser(case["choices"]), line=case.get("line_mode", False),
+                                  helpers=case.get("line_helpers", False))
     probs = oracle(case["scenario"], s, ids, err, leftover)
     diffs = model_check(model, case["scenario"], s, b.writes, ids) if model else []
     if model:
@@ -842,6 +938,8 @@ def replay(ctx, data):
     print("expected: every send decrypts in order, exactly once:", expected_ids(case["scenario"]))
     for p in probs:
         print("problem:", p)
+    if any("not on the wire" in p for p in probs) and not s.stuck:
+        print("after one further send the peer also read:", b.probe_further_send())
     for d in diffs:
         print("model-diff:", d)
     control = any(e == 1 for o in case["scenario"] for e in o)
